@@ -100,6 +100,10 @@ Theorem C19_dataset_include_total : forall files depth stack inc,
   ds_include false stack depth files inc <> Panic /\ ds_include false stack depth files inc <> Abort /\ ds_include false stack depth files inc <> Hang.
 Proof. exact ds_include_safe. Qed.
 
+Theorem C19_ann_offset_total : forall parent b e,
+  ann_offset parent b e <> Panic /\ ann_offset parent b e <> Abort /\ ann_offset parent b e <> Hang.
+Proof. exact ann_offset_safe. Qed.
+
 Theorem C19_include_stdin_total : forall stdin_open,
   include_stdin false stdin_open <> Panic /\ include_stdin false stdin_open <> Abort
   /\ include_stdin false stdin_open <> Hang.
